@@ -94,6 +94,10 @@ def configs(tier):
         cfgs.append(dict(name="start-attrs-ac%d-vl%d" % (L["ac"], L["vl"]), lim=L, OPS='{"SetAttributes","End","Peek"}',
                          KEYS='{"k1","k2","k3",""}', VALS="{%s}" % ", ".join([V_A1, V_LONG, V_INT]), MAXLIST=1, MAXSTEPS=2,
                          USESTART="TRUE", STARTATTRMAX=3 if tier == "thorough" else 2))
+    # any negative limit means "no limit" (SpanLimits doc), not only -1
+    cfgs.append(dict(name="neg-limits", lim=dict(ac=-2, vl=-3, ec=-2, lc=-5, pe=-2, pl=-7), OPS=ALL, KEYS='{"k1","k2",""}',
+                     VALS="{%s}" % ", ".join([V_A1, V_LONG]), MAXLIST=1, MAXSTEPS=2, USESTART="TRUE", STARTATTRMAX=1,
+                     STARTLINKMAX=1, LINKS="{%s}" % ", ".join([L_V2, L_I0])))
     cfgs.append(dict(name="start-mixed", lim=lim(ac=1, vl=1, ec=1, lc=1, pe=1, pl=1), OPS=ALL, KEYS='{"k1","k2",""}',
                      VALS="{%s}" % ", ".join([V_A1, V_LONG]), MAXLIST=1, MAXSTEPS=2 if tier == "thorough" else 1,
                      USESTART="TRUE", STARTATTRMAX=1, STARTLINKMAX=2, LINKS="{%s}" % ", ".join([L_V1, L_I0, L_I2])))
